@@ -17,8 +17,9 @@ pub mod thread {
     /// model of thread::spawn used by the S3 loaders (one thread per database, joined at once): the closure runs to
     /// completion at the spawn point; a panic inside it surfaces there instead of at join().unwrap()
     pub struct JoinHandle<T> { pub v: Option<T> }
-    impl<T> JoinHandle<T> { pub fn join(mut self) -> Result<T, Box<dyn std::any::Any + Send + 'static>> { Ok(self.v.take().unwrap()) } }
-    pub fn spawn<F: FnOnce() -> T, T>(f: F) -> JoinHandle<T> { JoinHandle { v: Some(f()) } }
+    /// joining a thread that never returns (it ended through vsym::end_thread) blocks for ever: ends the joiner too
+    impl<T> JoinHandle<T> { pub fn join(mut self) -> Result<T, Box<dyn std::any::Any + Send + 'static>> { if self.v.is_none() { vsym::end_thread(); } Ok(self.v.take().unwrap()) } }
+    pub fn spawn<F: FnOnce() -> T, T>(f: F) -> JoinHandle<T> { JoinHandle { v: vsym::run_until_end(f) } }
 }
 pub mod hash {
     pub use std::hash::{Hash, Hasher};
